@@ -433,6 +433,28 @@ def class_family(run):
     return out
 
 
+class Hang(Exception):
+    pass
+
+
+import contextlib  # noqa: E402
+import signal  # noqa: E402
+
+
+@contextlib.contextmanager
+def watchdog(seconds, what):
+    """the implementation must answer: a call that does not return within [seconds] is reported"""
+    def handler(signum, frame):
+        raise Hang(f"no answer within {seconds} s: {what}")
+    old = signal.signal(signal.SIGALRM, handler)
+    signal.alarm(seconds)
+    try:
+        yield
+    finally:
+        signal.alarm(0)
+        signal.signal(signal.SIGALRM, old)
+
+
 def gen_modules(run, rnd):
     mods = []
     names = ["f", "h"]
@@ -517,7 +539,7 @@ def check_modules(run, mods, wd, rnd, cov):
             body_terms = [T.s_of(c) for c in root.body]
         except T.Unsupported:
             continue
-        with common.quiet():
+        with common.quiet(), watchdog(20, f"parsing.safe_callable_names / delete_pointless_statements on {src!r}"):
             real = set(parsing.safe_callable_names(root)) - SAFE
             deleted = {id(n) for n, _ in fixes.delete_pointless_statements._fix_func(src)}
         real_flags = [id(c) in deleted for c in core.parse(src).body]
